@@ -77,6 +77,9 @@ def run(name, checks, tier):
             t0 = time.time()
             rc, out = sh("./check %s --tier %s" % (c, tier), cwd=V)
             sigs = [l.strip()[len("signature: "):] for l in out.splitlines() if l.strip().startswith("signature: ")]
+            if rc == 1 and ("VIOLATION property=%s " % c) not in out:
+                rc = 3  # the driver itself failed: not a detection
+                print(out[-1500:])
             res[c] = {"rc": rc, "signatures": sigs[:12], "wall_s": round(time.time() - t0, 1)}
             print("%s on %s: rc=%d %s" % (c, name, rc, "; ".join(sigs[:4])))
     finally:
